@@ -83,7 +83,7 @@ def dtTypeFuel (dts : List DataType) : Nat → Nat → Option String
     | none => none
     | some t =>
       match t.kind with
-      | .core n => if 1 ≤ n ∧ n ≤ 5 then some (upper t.name) else none
+      | .core n => if 1 ≤ n ∧ n ≤ 5 ∧ t.name ≠ "" then some (upper t.name) else none   -- `elif not ty:` an empty name is falsy
       | .enum _ => some "INTEGER"
       | .user b => dtTypeFuel dts f b
       | .other => none
@@ -200,8 +200,10 @@ def targetKeysKnown (classes : List SClass) (e : SEnd) : Bool :=
   | some c => e.keys.all (fun k => (c.attrs.map (fun a => upper a.name)).contains (upper k))
   | none => false
 
+/-- `find_metaclass` of both kinds, then `len(source_keys) != len(target_keys)`, then the target keys -/
 def assocDefinable (classes : List SClass) (a : SAssoc) : Bool :=
-  endDefinable classes a.src && endDefinable classes a.tgt && targetKeysKnown classes a.tgt
+  endDefinable classes a.src && endDefinable classes a.tgt && a.src.keys.length == a.tgt.keys.length &&
+    targetKeysKnown classes a.tgt
 
 /-- no define_* call of the build raises -/
 def Schema.definable (s : Schema) : Bool :=
@@ -212,6 +214,47 @@ def Schema.definable (s : Schema) : Bool :=
 def mkComponent (d : ClassDiagram) (comp : Option Nat) (drv : Bool) : Option Schema :=
   let s := extract d comp drv
   if s.definable then some s else none
+
+/-! ### identifiers that do not resolve
+
+  The functions above are total: `groupOf` gives `none` when a class of a relationship is missing and `keyNames`
+  drops an O_REF whose attribute is missing.  The Python code dereferences `None` there (`source_o_obj.Obj_ID`,
+  `o_attr.Name`: AttributeError).  `resolvedRel` says that this does not happen; `buildOutcome` is `mk_component`
+  with all three endings. -/
+
+def refsResolved (rc tc : Class) (refs : List Ref) : Bool :=
+  refs.all (fun r => (rc.findAttr r.rattr).isSome && (tc.findAttr r.iattr).isSome)
+
+def pairResolved (d : ClassDiagram) (rgo rto : Nat) (refs : List Ref) : Bool :=
+  match findClass d rgo, findClass d rto with
+  | some rc, some tc => refsResolved rc tc refs
+  | _, _ => false
+
+/-- every class and attribute the relationship refers to exists -/
+def resolvedRel (d : ClassDiagram) (r : Rel) : Bool :=
+  match r.kind with
+  | .simple form part refs => pairResolved d form.cls part.cls refs
+  | .linked one oth link r1 r2 => pairResolved d link one.cls r1 && pairResolved d link oth.cls r2
+  | .subsup sup subs => (findClass d sup).isSome && subs.all (fun s => pairResolved d s.1 sup s.2)
+  | .derived => true
+
+def resolvedIn (d : ClassDiagram) (comp : Option Nat) : Bool :=
+  (d.rels.filter (fun r => inScope d.containers comp r.parent)).all (resolvedRel d)
+
+inductive BuildOutcome where
+  | ok (s : Schema)
+  | metaModelException      -- define_class / define_association refuse (incl. UnknownClassException)
+  | attributeError          -- a relationship refers to a class / attribute row that does not exist
+  deriving Repr
+
+/-- `mk_component` with every ending.  (When one relationship is unresolved and another one undefinable, which of
+    the two exceptions is raised depends on the order of the R_REL rows; the model reports the AttributeError.) -/
+def buildOutcome (d : ClassDiagram) (comp : Option Nat) (drv : Bool) : BuildOutcome :=
+  if !(decide (((extract d comp drv).classes.map (fun c => upper c.kl)).Nodup)) then .metaModelException
+  else if !resolvedIn d comp then .attributeError
+  else match mkComponent d comp drv with
+    | some s => .ok s
+    | none => .metaModelException
 
 /-- `ModelLoader.build_component(name, derived_attributes)`; `none` = OoaOfOoaException -/
 def extractByName (d : ClassDiagram) (name : Option String) (drv : Bool) : Option Schema :=
